@@ -2663,3 +2663,96 @@ func RTentative(c *core.Ctx) {
 		c.Anchor("a roll-back p.textto(saved) in a function that also adds to a class")
 	}
 }
+
+// R-POSIXASCII: the POSIX names of RE2 mode are explicit ASCII sets.
+func RPosixASCII(c *core.Ctx) {
+	c.Rule("R-POSIXASCII", "every arm of addNamedASCII gives its members as an explicit list of ranges with constant bounds <= 0x7f, or delegates to addWord with the ASCII flag set; no arm goes through addDigit / addSpace / addCategory, whose Unicode, ECMAScript and RE2 forms are none of them the POSIX sets ([[:digit:]] is [0-9], [[:space:]] is [\\t\\n\\v\\f\\r ])", 10)
+	p := c.P
+	syn := p.Pkg("syntax")
+	if syn == nil {
+		c.Anchor("package syntax")
+		return
+	}
+	info := syn.TypesInfo
+	fd, _ := p.DeclOf(p.LookupFunc("syntax", "CharSet.addNamedASCII"))
+	if fd == nil {
+		c.Anchor("syntax.CharSet.addNamedASCII")
+		return
+	}
+	c.Visit("syntax.(*CharSet).addNamedASCII")
+	n := 0
+	ast.Inspect(fd.Body, func(x ast.Node) bool {
+		cc, ok := x.(*ast.CaseClause)
+		if !ok || len(cc.List) == 0 {
+			return true
+		}
+		label := types.ExprString(cc.List[0])
+		n++
+		okArm, why := false, "the arm neither assigns an explicit range list nor calls addWord(true, ...)"
+		for _, st := range cc.Body {
+			switch y := st.(type) {
+			case *ast.AssignStmt:
+				if len(y.Rhs) != 1 {
+					continue
+				}
+				cl, ok := ast.Unparen(y.Rhs[0]).(*ast.CompositeLit)
+				if !ok {
+					continue
+				}
+				all := len(cl.Elts) > 0
+				for _, el := range cl.Elts {
+					inner, ok := el.(*ast.CompositeLit)
+					if !ok || len(inner.Elts) != 2 {
+						all = false
+						break
+					}
+					for _, b := range inner.Elts {
+						if kv, ok := b.(*ast.KeyValueExpr); ok {
+							b = kv.Value
+						}
+						if k, ok := core.ConstInt(info, b); !ok || k < 0 || k > 0x7f {
+							all = false
+						}
+					}
+				}
+				if all {
+					okArm = true
+				} else {
+					why = "a range bound is not a constant <= 0x7f"
+				}
+			case *ast.ExprStmt:
+				call, ok := y.X.(*ast.CallExpr)
+				if !ok {
+					continue
+				}
+				fn := core.Callee(info, call)
+				if fn == nil {
+					continue
+				}
+				switch fn.Name() {
+				case "addWord":
+					if len(call.Args) >= 1 {
+						if tv, ok := info.Types[call.Args[0]]; ok && tv.Value != nil && tv.Value.String() == "true" {
+							okArm = true
+							continue
+						}
+					}
+					why = "addWord is called without the ASCII flag"
+				case "addDigit", "addSpace", "addCategory", "addCategories":
+					okArm = false
+					why = fn.Name() + " is not an ASCII POSIX set in any of its forms"
+				}
+			case *ast.ReturnStmt:
+				// the default arm
+				if len(cc.List) == 0 {
+					okArm = true
+				}
+			}
+		}
+		c.Check(okArm, fmt.Sprintf("addNamedASCII / [:%s:] is an explicit ASCII set", strings.Trim(label, `"`)), cc.Pos(), "%s", why)
+		return true
+	})
+	if n == 0 {
+		c.Anchor("the arms of addNamedASCII")
+	}
+}
